@@ -92,6 +92,24 @@ class TDict(Ty):
         return _SORT_CACHE[key]
 
 
+class TKSet(TDict):
+    """set (or identity dict) of records that compare equal by one key field (e.g. ScaledFactor: __eq__/__hash__ use `.factor`
+    only).  Represented as a map key -> payload field; the element for key k is rec(k, val[k])."""
+
+    def __init__(self, rec, keyfield, valfield):
+        self.rec, self.keyfield, self.valfield = rec, keyfield, valfield
+        super().__init__(rec.fields[keyfield], rec.fields[valfield])
+        self.name = f"KSet[{rec.name}]"
+
+    def sort(self):
+        return TDict(self.k, self.v).sort()
+
+    def elem_at_key(self, dterm, k):
+        s = self.sort()
+        args = [k if f == self.keyfield else z3.Select(s.val(dterm), k) for f in self.rec.order]
+        return self.rec.mk(*args)
+
+
 class TObj(Ty):
     """Opaque immutable object sort (uninterpreted), compared with `==` up to its own __eq__
     (assumption A-eq: the sort is the quotient of the class by __eq__)."""
@@ -170,9 +188,12 @@ class TOpt(Ty):
 class TData(Ty):
     """Immutable record with a constructor (z3 datatype): e.g. slice(start, stop)."""
 
+    _REG = {}
+
     def __init__(self, name, fields):
         self.name, self.fields = name, dict(fields)
         self.order = list(fields)
+        TData._REG[name] = self
 
     def sort(self):
         if ("data", self.name) not in _SORT_CACHE:
@@ -281,6 +302,8 @@ def parse_ty(s, recs=None):
         raise ValueError(s)
     if s == "slice":
         return TSLICE
+    if s in TData._REG:
+        return TData._REG[s]
     if s in TRec._REG:
         return TRec(s)
     if recs and s in recs:
